@@ -22,7 +22,7 @@ from bind import c15
 
 PROP = "C02"
 
-MAIN_GROUPS = ["core", "nest", "blocks", "methods", "core2", "defnames", "targets", "comp", "calls", "decoys", "modules"]
+MAIN_GROUPS = ["core", "nest", "blocks", "methods", "decos", "attrs", "core2", "defnames", "targets", "comp", "calls", "decoys", "modules"]
 FEATURE_GROUPS = ["params", "stmts", "walrus", "lambda"]
 
 _ROOT = None
@@ -47,7 +47,7 @@ def open_project(r):
     """a rope project holding the rendered program.  The one-module case reuses one
     project per worker (mod.py is rewritten through rope); a multi-module program gets
     a project of its own.  Returns (project, close)"""
-    if r.lib_path is None:
+    if not r.multi:
         project = _project()
         res = project.get_file("mod.py")
         if not res.exists():
